@@ -233,18 +233,15 @@ Definition peer_originated (o : outcome) : bool :=
 
 Definition own_response (reads : list (N * N)) (writes : list (N * outcome)) (ko : N * outcome) : bool :=
   if peer_originated (snd ko)
-  then match lookup (fst ko) reads with
-       | Some r => existsb (fun w => (fst w =? r) && outcome_eqb (snd w) (snd ko)) writes
-       | None => false
-       end
+  then existsb (fun kr => (fst kr =? fst ko)
+                          && existsb (fun w => (fst w =? snd kr) && outcome_eqb (snd w) (snd ko)) writes) reads
   else true.
 
 Definition mon_conn (script : list (cop * cobs)) (final : list (N * outcome)) : bool :=
   let reads := reads_of script in
   let writes := writes_of script in
-  let results := results_of script ++ final in
-  nodup_N (map snd reads) && nodup_N (map fst results) && request_echo_ok script
-  && forallb (own_response reads writes) results.
+  nodup_N (map snd reads) && request_echo_ok script
+  && forallb (own_response reads writes) (results_of script ++ final).
 
 Definition C26_monitor (c : c26_case) : N :=
   match c with
